@@ -198,8 +198,9 @@ def retry_copies(rows, quick, rng):
             cost = (m / 163.0) ** 2 * 7
         elif op == "g12sRetry":
             loop = (not quick) or (row["name"] == pick_g and plan in ("s0", "kmax,s0,k0"))
-            ver = "s0" in plan.split(",") if not quick else (row["name"] == pick_g and plan == "s0")
-            gen = plan == "s0" and not quick
+            # a 512-bit scalar multiplication costs TLC minutes: thorough recomputes every loop, the equation for the s0 plan only
+            ver = ("s0" in plan.split(",") and (row["l"] == 256 or plan == "s0")) if not quick else (row["name"] == pick_g and plan == "s0")
+            gen = plan == "s0" and not quick and row["l"] == 256
             cost = 18 if row["l"] == 256 else 215
         else:
             loop = True
